@@ -44,7 +44,7 @@ FUNC_TPL = '''def {name}(alpha{anna}=5, beta{annb}="x"):
 
 def input_module(n, kind, annotated, imports):
     names = ["Alpha", "Bravo", "Charlie", "Delta"][:n]
-    src = "".join("import %s\n" % m for m in imports)
+    src = "".join(("from %s import %s\n" % m) if isinstance(m, tuple) else ("import %s\n" % m) for m in imports)
     for i, nm in enumerate(names):
         tpl = CLASS_TPL if (kind == "classes" or (kind == "mixed" and i % 2 == 0)) else FUNC_TPL
         src += "\n\n" + tpl.format(name=nm if tpl is CLASS_TPL else nm.lower(), anna=": int" if annotated else "", annb=": str" if annotated else "",
@@ -64,8 +64,8 @@ def jobs(tier):
             for annotated in (False, True):
                 for typ in ("class", "function", "argparse"):
                     for tpl in ("{name}Config", "Gen{name}"):
-                        for extra in ("none", "prepend-import", "prepend-comment", "prepend-no-newline", "imports-1", "imports-2"):
-                            if tier != "thorough" and (n == 4 and extra not in ("none", "imports-2")):
+                        for extra in ("none", "prepend-import", "prepend-comment", "prepend-no-newline", "imports-1", "imports-2", "prepend+imports"):
+                            if tier != "thorough" and (n == 4 and extra not in ("none", "imports-2", "prepend+imports")):
                                 continue
                             if tier != "thorough" and tpl == "Gen{name}" and extra != "none":
                                 continue
@@ -76,13 +76,13 @@ def jobs(tier):
 def _run(job):
     d = tempfile.mkdtemp(prefix="vfgen_")
     try:
-        imports = {"imports-1": ["os"], "imports-2": ["os", "sys"]}.get(job["extra"], [])
+        imports = {"imports-1": ["os"], "imports-2": ["os", "sys"], "prepend+imports": ["os", ("typing", "List")]}.get(job["extra"], [])
         names, src = input_module(job["n"], job["kind"], job["annotated"], imports)
         mod = "vfgen_input"
         with open(os.path.join(d, mod + ".py"), "w") as f:
             f.write(src)
         wjob = dict(job, dir=d, module=mod, output=os.path.join(d, "out.py"))
-        if job["extra"] == "prepend-import":
+        if job["extra"] in ("prepend-import", "prepend+imports"):  # the latter: the named file imports another name from the module the prepended text imports from
             wjob["prepend"] = "from typing import Optional\n"
         elif job["extra"] == "prepend-comment":
             wjob["prepend"] = "# generated file\n"
@@ -136,12 +136,14 @@ def judge(job, names, res):
     imports = [n for n in tree.body if isinstance(n, (ast.Import, ast.ImportFrom))]
     if any(tree.body.index(i) > first_def for i in imports):
         fails.append(("imports-first", "an import follows a definition"))
-    want_imports = {"imports-1": ["os"], "imports-2": ["os", "sys"]}.get(job["extra"], [])
+    want_imports = {"imports-1": ["os"], "imports-2": ["os", "sys"], "prepend+imports": ["os", ("typing", "List")]}.get(job["extra"], [])
     got_imports = [a.name for i in imports if isinstance(i, ast.Import) for a in i.names]
+    got_from = [(i.module, a.name) for i in imports if isinstance(i, ast.ImportFrom) for a in i.names]
     for m in want_imports:
-        if got_imports.count(m) != 1:
-            fails.append(("imports-once", "import %s appears %d times" % (m, got_imports.count(m))))
-    if job["extra"] == "prepend-import" and out.count("from typing import Optional") != 1:
+        n_got = got_from.count(m) if isinstance(m, tuple) else got_imports.count(m)
+        if n_got != 1:
+            fails.append(("imports-once", "import %s appears %d times" % (m, n_got)))
+    if job["extra"] in ("prepend-import", "prepend+imports") and out.count("from typing import Optional") != 1:
         fails.append(("prepend-once", "the prepended import appears %d times" % out.count("from typing import Optional")))
     if job["extra"] == "prepend-no-newline" and out.count("import json") != 1:
         fails.append(("prepend-once", "the prepended import appears %d times" % out.count("import json")))
